@@ -131,6 +131,9 @@ class C06(PropCheck):
                     progs_.append({"k": "prog", "kind": "gen", "corpus_odd": ci, "pseed": 0, "depth": 0, "choices": [1, 0, 1, 1], "mask": [1],
                                    "reps": reps, "mode": mode, "odd": True, "reach_at": 1, "gc_off": reps == 3})
         chains_ = [self.gen_chain(rng) for _ in range(m)]
+        for target in ("gen", "agen"):
+            for mode in ("trickery", "referents", "auto"):
+                chains_.append({"k": "warnreg", "target": target, "mode": mode, "reps": 2})
         self._batches: Dict[int, List[dict]] = {}
         for b, i in enumerate(range(0, len(progs_) + len(chains_), BATCH)):
             grp = (progs_ + chains_)[i:i + BATCH]
